@@ -126,4 +126,11 @@ example : (normMsg m_tlcreate.desc exTlcreate).vals =
     [.atom (.int 1), .atom (.str [0x78]), .atom (.int 2), .atom (.int 0o7777), .atom (.int 0)] := by
   decide
 
+/-- O (regenerated from transport.go): the pooled buffer a frame is encoded into is released only
+after the frame has been written, and the pooled buffers a frame is received into only when
+`recv` returns – so the bytes on the wire are the bytes that were encoded, and the bytes decoded
+are the bytes that arrived, also when other goroutines send and receive at the same time. -/
+theorem frame_buffers_live_while_in_use :
+    Gen.sendBufferReleasedAfterWrite = true ∧ Gen.recvBufferReleasedOnReturn = true := by decide
+
 end P9.C01
